@@ -92,7 +92,12 @@ def update_file(rng, peers, n=None, raw=None):
         p = rng.choice(peers)
         k = rng.weighted([("M", 62), ("S", 16), ("K", 12), ("N", 10), ("MB", 70 if raw else 0)])
         if k == "MB":
-            ops.append("MB %d %d %s" % (variant(rng, p), p, rng.choice(raw)))
+            h = rng.choice(raw)
+            ops.append("MB %d %d %s" % (variant(rng, p), p, h))
+            if h in HALF_HEX and rng.chance(30):
+                # nothing of such an UPDATE may be applied - not even the registration of its peer: an Established->Idle
+                # of a peer that is only known from it finds nobody to withdraw
+                ops.append("S %d %d 6 1" % (variant(rng, p), p))
         elif k == "M":
             ops.append("M %d %d %s" % (variant(rng, p), p, upd(rng)))
         elif k == "S":
@@ -252,6 +257,8 @@ def corpus():
         # MP_UNREACH_NLRI / MP_REACH_NLRI has 200 bits) used to end the file; the records behind it must be imported, and
         # nothing of the half that parses may be applied (all or nothing: 10.9.8.0/24 stays as announced first, 10.9.9.0/24 active)
         "F p;MB 4 0 ffffffffffffffffffffffffffffffff003302000000144001010040020602010000fde9400304c0000201180a0908180a0909;MB 4 0 ffffffffffffffffffffffffffffffff003f02000000244001010040020602010000fde9400304c0000201800f0d0002014020010db800000001c8180a0908;MB 4 0 ffffffffffffffffffffffffffffffff004a020004180a0909002f4001010040020602010000fde9800e1f0002011020010db8000000000000000000000001004020010db800000001c8;M 4 0 0 4 1 0 -;QX 0 24/0a0908;QX 0 24/0a0909;Q 0 1",
+        # ... and its peer is not registered by it: the state change behind it finds nobody
+        "F p;MB 4 0 ffffffffffffffffffffffffffffffff004a020004180a0909002f4001010040020602010000fde9800e1f0002011020010db8000000000000000000000001004020010db800000001c8;S 4 0 6 1;MB 4 1 ffffffffffffffffffffffffffffffff003f02000000244001010040020602010000fde9400304c0000201800f0d0002014020010db800000001c8180a0908;S 4 1 6 1;M 4 2 0 4 1 0 -;S 4 2 6 1;Q 0 1",
         # the same UPDATEs in AS2 / _ET records of other peers, a good UPDATE from the wire (withdraw .9, announce .8) behind them
         "F g;MB 2 0 ffffffffffffffffffffffffffffffff003302000000144001010040020602010000fde9400304c0000201180a0908180a0909;MB 14 3 ffffffffffffffffffffffffffffffff003f02000000244001010040020602010000fde9400304c0000201800f0d0002014020010db800000001c8180a0908;MB 12 2 ffffffffffffffffffffffffffffffff004a020004180a0909002f4001010040020602010000fde9800e1f0002011020010db8000000000000000000000001004020010db800000001c8;MB 4 0 ffffffffffffffffffffffffffffffff003302000000144001010040020602010000fde9400304c0000201180a0908180a0909;MB 4 0 ffffffffffffffffffffffffffffffff0033020004180a090900144001010040020602010000fde9400304c0000201180a0908;QX 0 24/0a0908;QX 0 24/0a0909",
         # known finding C16-3 (= C03-1): session back up after Established->Idle, re-announcement stays withdrawn
